@@ -1719,10 +1719,16 @@ def setup_cli(eng):
     install_dd_env(eng)
     import os as real_os
     osm = env.ModelNS()
-    osm.path = types.SimpleNamespace(
+    osm.path = env.ModelNS(
         isfile=lambda f: True, getsize=file_size,
         join=real_os.path.join, splitext=real_os.path.splitext,
-        dirname=real_os.path.dirname, abspath=real_os.path.abspath)
+        dirname=real_os.path.dirname, abspath=real_os.path.abspath,
+        # ordinary configuration here (the usage contracts quantify over the
+        # file facts): the output path is not the input file; whether the
+        # output file already exists is arbitrary
+        exists=lambda f: True if force(f) == '<infile>' else SBool(
+            cur().fresh_bool('outfile_exists')),
+        samefile=lambda a, b: force(a) == force(b))
     osm.access = lambda f, m: True
     osm.X_OK = 1
     eng.native_modules['os'] = osm
@@ -1891,12 +1897,30 @@ def make_run_usage(with_cc):
             # separate question (os.path.isfile)
             return SBool(fact(f, 'xbit'))
 
+        # the output path may name the very file that is the input (same
+        # path, ./path, a link resolved by the OS): one more ghost fact
+        same = p.fresh_bool('outfile_is_infile')
+
+        def samefile(a, b):
+            if {force(a), force(b)} == {'<infile>', '<outfile>'}:
+                return SBool(same)
+            raise Unsupported('os.path.samefile: other paths not modelled')
+
+        def exists(f):
+            f = force(f)
+            if f == '<outfile>':
+                # it exists if it is the input (which does, when regular)
+                return SBool(z3.Or(z3.And(same, fact('<infile>', 'isfile')),
+                                   p.fresh_bool('outfile_exists')))
+            return SBool(fact(f, 'isfile'))
+
         import os as real_os
         osm = env.ModelNS()
-        osm.path = types.SimpleNamespace(
+        osm.path = env.ModelNS(
             isfile=isfile, getsize=file_size, join=real_os.path.join,
             splitext=real_os.path.splitext, dirname=real_os.path.dirname,
-            abspath=real_os.path.abspath)
+            abspath=real_os.path.abspath, samefile=samefile, exists=exists,
+            realpath=lambda f: f)
         osm.access = access
         osm.X_OK = 1
         eng.native_modules['os'] = osm
@@ -1977,7 +2001,9 @@ def make_run_usage(with_cc):
         cc_ok = z3.And(fact('/bin/cc', 'isfile'), fact('/bin/cc', 'xbit'),
                        fact('/bin/cc', 'runnable')) \
             if with_cc else z3.BoolVal(True)
-        usage_ok = z3.And(infile_ok, cmd_ok, cc_ok)
+        # C01 / C06: the input file is left alone - an output path that is
+        # the input file cannot be honoured
+        usage_ok = z3.And(infile_ok, cmd_ok, cc_ok, z3.Not(same))
         out = outcome(eng, cli.g['ddsmt_main'], [])
         diag = out.kind == 'raise' and isinstance(out.value, ObjVal) and \
             out.value.cls.qualname == 'ddsmt.cli.DDSMTException'
@@ -1999,6 +2025,12 @@ def make_run_usage(with_cc):
                      info=repr(events))
         if out.kind == 'return':
             p.oblige(f'C04/{N}/usage-error-is-reported', usage_ok)
+            # the run went through (a reduction may have been written to the
+            # output path): then that path is not the input file
+            p.oblige(f'C01+C06/{N}/input-file-is-left-alone', z3.Not(same),
+                     info={'signature': 'a run goes through although the '
+                           'output path is the input file: the input is '
+                           'replaced by the first accepted simplification'})
             p.oblige(f'C04/{N}/minimisation-ran', 'reduce' in events and
                      'golden' in events)
 
@@ -2015,7 +2047,8 @@ def replay_usage(name, model, detail):
     for path in ('<infile>', '/bin/cmd', '/bin/cc'):
         lay[path] = [b(f'isfile[{path}]'), b(f'xbit[{path}]'),
                      b(f'runnable[{path}]')]
-    A = {'layout': lay, 'with_cc': '[cc]' in name}
+    A = {'layout': lay, 'with_cc': '[cc]' in name,
+         'same': bool(model.get('outfile_is_infile', False))}
     script = f'''
 import os, subprocess, sys, tempfile
 A = {A!r}
@@ -2033,19 +2066,25 @@ for k, (isfile, xbit, runnable) in A['layout'].items():
                 else 'echo sat (a script without the first line)\\n')
     os.chmod(f, 0o755 if xbit else 0o644)
 argv = [sys.executable, os.path.join(os.environ['PYTHONPATH'].split(os.pathsep)[0], 'bin/ddsmt'),
-        '-j1', os.path.join(d, 'in.smt2'), os.path.join(d, 'out.smt2'),
-        os.path.join(d, 'cmd.sh')]
+        '-j1', os.path.join(d, 'in.smt2'),
+        os.path.join(d, '.', 'in.smt2') if A.get('same') else
+        os.path.join(d, 'out.smt2'), os.path.join(d, 'cmd.sh')]
+inp = os.path.join(d, 'in.smt2')
+before = open(inp, 'rb').read() if os.path.isfile(inp) else None
 if A['with_cc']:
     argv[3:3] = ['-c', os.path.join(d, 'cc.sh')]
 r = subprocess.run(argv, capture_output=True, text=True, timeout=300)
+after = open(inp, 'rb').read() if os.path.isfile(inp) else None
 import shutil; shutil.rmtree(d, ignore_errors=True)
 tb = 'Traceback (most recent call last)' in r.stderr + r.stdout
 usage_ok = all(i and ((x and r) or k == '<infile>')
                for k, (i, x, r) in A['layout'].items()
                if A['with_cc'] or k != '/bin/cc')
-print('layout', A, 'exit', r.returncode, 'traceback', tb)
+usage_ok = usage_ok and not A.get('same')
+print('layout', A, 'exit', r.returncode, 'traceback', tb,
+      'input file changed', before != after)
 print(r.stderr[-800:])
-bad = tb or (r.returncode == 0) != usage_ok
+bad = tb or (r.returncode == 0) != usage_ok or before != after
 sys.exit(1 if bad else 0)
 '''
     return {'script': script, 'input': A}
